@@ -34,7 +34,7 @@ ASSUMPTIONS = [
 MINIMA = {
     "quick": {"reads_compared": 4000, "stream_cases": 10, "sesparse_cases": 10, "cowd_cases": 10, "tail_not_buffer_multiple": 20,
               "compressed_grains_inflated": 50},
-    "thorough": {"reads_compared": 40000},
+    "thorough": {"reads_compared": 400000},
 }
 MECH = "vmdk.read"
 DATA = os.path.join(os.environ.get("VF_REPO", "/repo"), "tests", "data")
@@ -43,7 +43,7 @@ DATA = os.path.join(os.environ.get("VF_REPO", "/repo"), "tests", "data")
 def plan(tier: str, seed: int) -> list[dict]:
     rng = rng_for(seed, ID, "plan")
     cases = []
-    n = 200 if tier == "quick" else 5000
+    n = 200 if tier == "quick" else 20000
     for i in range(n):
         kind = rng.choice(["hosted", "hosted", "hosted", "stream", "cowd", "sesparse", "sesparse", "flat"])
         cases.append({"k": kind, "i": i, "placement": rng.choice(["seq", "rev", "shuffle", "runs", "runs", "revruns"]), "weight": 2})
